@@ -17,6 +17,7 @@ import (
 	"context"
 	"encoding/json"
 	"fmt"
+	"os"
 	"sort"
 	"strings"
 	"testing"
@@ -31,9 +32,11 @@ import (
 // ---------------------------------------------------------------- events
 
 type vkC04Ev struct {
-	Kind string `json:"kind"` // p, al, neg, nn, xn, adv, purge, pf-complete, withdraw
+	Kind string `json:"kind"` // p, al, al2, alx, alz, bx, bz, neg, negq, nn, xn, qq, adv, purge, pf-complete, withdraw
 	TTL  uint32 `json:"ttl,omitempty"`
-	Cut  int    `json:"cut,omitempty"` // delegation lease in seconds from now (0 = none)
+	// delegation lease in seconds from now (0 = none). For alx / alz it is the lease of the chain
+	// through which the chase LEG (bx.t. / bz.t.) is resolved; the alias's own zone has none.
+	Cut int `json:"cut,omitempty"`
 	Sig  int    `json:"sig,omitempty"` // RRSIG expiring this many seconds from now (0 = unsigned)
 	Min  uint32 `json:"min,omitempty"` // SOA minimum (neg)
 	Val  bool   `json:"val,omitempty"` // neg: locally validated proof (admits subtree cut + RFC 8198 proof)
@@ -46,6 +49,10 @@ func (e vkC04Ev) String() string {
 		return fmt.Sprintf("adv(%ds)", e.D)
 	case "p", "al", "al2":
 		return fmt.Sprintf("%s(ttl=%d,cut=%d,sig=%d)", e.Kind, e.TTL, e.Cut, e.Sig)
+	case "alx", "alz":
+		return fmt.Sprintf("%s(ttl=%d,legcut=%d)", e.Kind, e.TTL, e.Cut)
+	case "bx", "bz":
+		return fmt.Sprintf("%s(cut=%d)", e.Kind, e.Cut)
 	case "neg", "negq":
 		return fmt.Sprintf("%s(ttl=%d,min=%d,cut=%d,val=%v)", e.Kind, e.TTL, e.Min, e.Cut, e.Val)
 	}
@@ -59,10 +66,19 @@ func vkC04Events(thorough bool) []vkC04Ev {
 		{Kind: "neg", TTL: 30, Min: 7}, {Kind: "neg", TTL: 30, Min: 30, Cut: 3, Val: true}, {Kind: "neg", TTL: 30, Min: 7, Val: true},
 		{Kind: "negq", TTL: 30, Min: 30, Cut: 3, Val: true}, {Kind: "negq", TTL: 30, Min: 30, Val: true},
 		{Kind: "nn"}, {Kind: "xn"}, {Kind: "qq"},
+		// record-less terminals: a BARE NXDOMAIN (rcode 3, empty answer and authority) under its own key,
+		// and an alias whose chase leg ends in it — answered from the cache when bx.t. is stored, resolved
+		// fresh under a 3 s delegation lease otherwise; the same with a bare empty NOERROR
+		{Kind: "bx"}, {Kind: "bx", Cut: 3}, {Kind: "alx", TTL: 30, Cut: 3}, {Kind: "bz"}, {Kind: "alz", TTL: 30, Cut: 3},
 		{Kind: "adv", D: 1}, {Kind: "adv", D: 4}, {Kind: "adv", D: 6}, {Kind: "adv", D: 10}, {Kind: "adv", D: 25},
 		{Kind: "purge"},
 	}
+	if os.Getenv("VERIF_C04_BARE_FRESH") != "0" { // part of every run since /repo 453d808 (=0 leaves it out)
+		// leg resolved fresh WITHOUT a lease (see the note at vkBxName)
+		evs = append(evs, vkC04Ev{Kind: "alx", TTL: 30})
+	}
 	if thorough {
+		evs = append(evs, vkC04Ev{Kind: "alx", TTL: 7, Cut: 9}, vkC04Ev{Kind: "bz", Cut: 3}, vkC04Ev{Kind: "alz", TTL: 30})
 		evs = append(evs, vkC04Ev{Kind: "p", TTL: 30, Cut: 20}, vkC04Ev{Kind: "p", TTL: 300, Sig: 2}, vkC04Ev{Kind: "p", TTL: 0},
 			vkC04Ev{Kind: "al", TTL: 1}, vkC04Ev{Kind: "al2", TTL: 7}, vkC04Ev{Kind: "neg", TTL: 2, Min: 30}, vkC04Ev{Kind: "adv", D: 5})
 	}
@@ -88,6 +104,7 @@ type vkC04Piece struct {
 	what     string
 	life     time.Duration // TTL-derived lifetime (floored/capped), counted from admission
 	lease    time.Time     // absolute delegation lease handed to the cache (zero = none)
+	bare     string        // record-less denial of this name: no TTL in the reply to derive a lifetime from
 }
 
 // settle fixes the permissive deadline once the admitting exchange has returned:
@@ -112,7 +129,23 @@ const (
 	vkXNName = "x.n.t."
 	vkQ5Name = "q5.t." // second denied name, covered by a DIFFERENT NSEC (q0.t. -> q9.t.) of the same zone
 	vkQ7Name = "q7.t." // probe inside that second span
+	// bx.t. answers with a BARE NXDOMAIN, bz.t. with a bare empty NOERROR: no answer, no authority —
+	// what filtering upstreams and sloppy authorities of unsigned zones hand out (the resolver fails
+	// them under SIGNED zones since 3d9aea3; the cache behind a forwarder still sees them). Such a
+	// denial has no record TTL to take: its own entry gets the 5 s floor, or the lease if shorter.
+	// alx.t. / alz.t. are bare CNAMEs to them, so the cache's own chase composes alias + denial.
+	vkBxName  = "bx.t."
+	vkBzName  = "bz.t."
+	vkAlxName = "alx.t."
+	vkAlzName = "alz.t."
 )
+
+// vkC04Leg maps an alias of the alphabet with a record-less terminal to its chase leg.
+var vkC04Leg = map[string]string{vkAlxName: vkBxName, vkAlzName: vkBzName}
+
+func vkC04Bare(name string) bool {
+	return name == vkBxName || name == vkBzName || name == vkAlxName || name == vkAlzName
+}
 
 func vkSig(owner string, covered uint16, ttl uint32, exp time.Time) *dns.RRSIG {
 	return &dns.RRSIG{Hdr: dns.RR_Header{Name: owner, Rrtype: dns.TypeRRSIG, Class: dns.ClassINET, Ttl: ttl}, TypeCovered: covered,
@@ -232,6 +265,30 @@ func vkNewC04World(prefetch bool) *vkC04World {
 			}
 			w.model["fresh:"+vkAl2Name] = pc
 			bound(cut)
+		case vkAlxName, vkAlzName:
+			lk := strings.ToLower(q.Name)
+			ttl := uint32(30)
+			if ev.Kind == strings.TrimSuffix(lk, ".t.") {
+				ttl = ev.TTL
+			}
+			m.Answer = []dns.RR{&dns.CNAME{Hdr: dns.RR_Header{Name: q.Name, Rrtype: dns.TypeCNAME, Class: dns.ClassINET, Ttl: ttl}, Target: vkC04Leg[lk]}}
+			w.model["fresh:"+lk] = &vkC04Piece{marker: -1, what: strings.TrimSuffix(lk, ".t."), life: clampTTL(time.Duration(ttl) * time.Second)}
+		case vkBxName, vkBzName:
+			// header-only reply: rcode, no answer, no authority
+			lk := strings.ToLower(q.Name)
+			cut := 0
+			if (lk == vkBxName && (ev.Kind == "bx" || ev.Kind == "alx")) || (lk == vkBzName && (ev.Kind == "bz" || ev.Kind == "alz")) {
+				cut = ev.Cut
+			}
+			if lk == vkBxName {
+				m.Rcode = dns.RcodeNameError
+			}
+			pc := &vkC04Piece{marker: -2, what: "neg(val=false,fam=bare)", life: clampTTL(0), bare: lk}
+			if cut > 0 {
+				pc.lease = now.Add(time.Duration(cut) * time.Second)
+			}
+			w.model["fresh:neg:"+lk] = pc
+			bound(cut)
 		case vkNName, vkNNName, vkXNName, vkQ5Name, vkQ7Name:
 			ttl, min, cut, val := uint32(30), uint32(30), 0, false
 			famQ := strings.HasPrefix(strings.ToLower(q.Name), "q")
@@ -348,7 +405,7 @@ func (w *vkC04World) checkReply(route vkRoute, qname string, r vkReply, t time.T
 			return v
 		}
 	}
-	for _, al := range []string{vkAlName, vkAl2Name} {
+	for _, al := range []string{vkAlName, vkAl2Name, vkAlxName, vkAlzName} {
 		// an alias entry is judged by the CNAME it owns (mid.t.'s CNAME is the local answerer's)
 		var own []dns.RR
 		for _, rr := range cnames {
@@ -361,6 +418,24 @@ func (w *vkC04World) checkReply(route vkRoute, qname string, r vkReply, t time.T
 				return v
 			}
 		}
+	}
+	if lq := strings.ToLower(qname); vkC04Bare(lq) {
+		// record-less terminals: a reply that went nowhere upstream took the denial from the cache —
+		// from the leg's own entry (bx.t., bz.t., alz.t. -> bz.t.) or from the composed alias entry (alx.t.)
+		if r.stubCalls > 0 || (m.Rcode != dns.RcodeNameError && m.Rcode != dns.RcodeSuccess) {
+			return ""
+		}
+		piece, label := w.model["neg:"+lq], "bare negative state"
+		switch lq {
+		case vkAlxName:
+			piece, label = w.model[vkAlxName], "alias entry (alias + bare NXDOMAIN)"
+			if m.Rcode != dns.RcodeNameError {
+				piece, label = w.model["neg:"+vkBxName], "bare negative state (leg)"
+			}
+		case vkAlzName:
+			piece, label = w.model["neg:"+vkBzName], "bare negative state (leg)"
+		}
+		return judge(piece, label, m.Ns)
 	}
 	if r.stubCalls == 0 && (m.Rcode == dns.RcodeNameError || (m.Rcode == dns.RcodeSuccess && len(m.Answer) == 0 && len(m.Ns) > 0)) {
 		// served from the exact negative entry, a subtree cut, or an RFC 8198 proof: the
@@ -431,6 +506,13 @@ func (w *vkC04World) query(ev vkC04Ev, qname string) (string, string) {
 	after := vtime.Now()
 	for k, f := range w.model {
 		if strings.HasPrefix(k, "fresh:") {
+			if f.bare != "" {
+				// a record-less denial: the reference for this piece is what its OWN entry was given
+				// (sdns: the 5 s floor); the lease comes from the model
+				if e := w.rawEntry(f.bare); e != nil {
+					f.life = e.ttl
+				}
+			}
 			f.settle(after)
 		}
 	}
@@ -465,6 +547,25 @@ func (w *vkC04World) query(ev vkC04Ev, qname string) (string, string) {
 			}
 		}
 	}
+	for al, leg := range vkC04Leg {
+		f := w.model["fresh:"+al]
+		if f == nil {
+			continue
+		}
+		if al == vkAlxName {
+			// alias + terminal NXDOMAIN is stored whole under the alias key and every later hit on it
+			// is terminal (RFC 6604, no new chase): the entry inherits the denial's lifetime — the
+			// leg's stored entry when the chase was answered from the cache, the fresh leg's
+			// floor / lease otherwise
+			if p := w.model["neg:"+leg]; p != nil && p.deadline.Before(f.deadline) {
+				f.deadline = p.deadline
+			}
+		}
+		// alz: alias + bare empty NOERROR stores nothing of the leg (the CNAME alone, rcode of the
+		// alias's own reply) and every hit chases again; the CNAME is held to its own lifetime and
+		// the leg's NODATA to the leg's whenever a reply takes it from the cache (checkReply)
+		w.model[al] = f
+	}
 	if v := w.checkReply(vkRouteMsg, qname, r, t); v != "" {
 		return v, "violation"
 	}
@@ -493,8 +594,28 @@ func (w *vkC04World) query(ev vkC04Ev, qname string) (string, string) {
 	return "", outcome
 }
 
+// rawEntry reads the stored entry of name/A/IN without the expiry-on-read side effect.
+func (w *vkC04World) rawEntry(name string) *CacheEntry {
+	key := CacheKey{Question: dns.Question{Name: name, Qtype: dns.TypeA, Qclass: dns.ClassINET}}.Hash()
+	if v, ok := w.c.store.positive.cache.Get(key); ok {
+		return v.(*CacheEntry)
+	}
+	if v, ok := w.c.store.negative.cache.Get(key); ok {
+		return v.(*CacheEntry)
+	}
+	return nil
+}
+
 func (w *vkC04World) apply(ev vkC04Ev) (string, string) {
 	switch ev.Kind {
+	case "bx":
+		return w.query(ev, vkBxName)
+	case "bz":
+		return w.query(ev, vkBzName)
+	case "alx":
+		return w.query(ev, vkAlxName)
+	case "alz":
+		return w.query(ev, vkAlzName)
 	case "p":
 		return w.query(ev, vkPName)
 	case "al":
@@ -543,6 +664,11 @@ func (w *vkC04World) digest() string {
 		if v, ok := w.c.store.positive.cache.Get(key); ok {
 			e := v.(*CacheEntry)
 			parts = append(parts, fmt.Sprintf("real:%s=%d/pf%v", n, int(e.remaining(now).Round(time.Second)/time.Second), e.prefetch.Load()))
+		}
+	}
+	for _, n := range []string{vkBxName, vkBzName, vkAlxName, vkAlzName} {
+		if e := w.rawEntry(n); e != nil {
+			parts = append(parts, fmt.Sprintf("real:%s=%d", n, int(e.remaining(now).Round(time.Second)/time.Second)))
 		}
 	}
 	nc := w.c.store.nxDomainCuts
